@@ -165,6 +165,18 @@ def services_ir(pkg="com.palantir.svc", set_double_query=True):
     svc["docs"] = "Service docs"
     empty = ir.service("EmptyService", [], package=pkg)
     # services in which a shape occurs ONLY behind an alias (no literal twin in the same service to mask a missed dealiasing)
+    # external references (compiled as their fallback) in every parameter and body position
+    X = lambda t, n: ir.external(t, name=n)
+    ext = ir.service("ExternalArgs", [
+        ir.endpoint("q", "GET", "/ext/q/{p}", [ir.arg("p", X(P("STRING"), "ExtStr"), "path"), ir.arg("one", X(P("INTEGER"), "ExtInt"), "query", "one"),
+                                               ir.arg("lst", X(ir.list_(P("STRING")), "ExtList"), "query", "lst"), ir.arg("st", X(ir.set_(P("INTEGER")), "ExtSet"), "query", "st"),
+                                               ir.arg("opt", X(ir.optional(P("STRING")), "ExtOpt"), "query", "opt"),
+                                               ir.arg("h", X(ir.optional(P("RID")), "ExtOptRid"), "header", "X-H"), ir.arg("h2", X(P("UUID"), "ExtUuid"), "header", "X-H2")],
+                    returns=X(ir.list_(P("STRING")), "ExtList")),
+        ir.endpoint("b", "POST", "/ext/b", [ir.arg("body", X(P("BINARY"), "ExtBin"), "body")], returns=X(ir.optional(P("BINARY")), "ExtOptBin")),
+        ir.endpoint("o", "POST", "/ext/o", [ir.arg("body", X(ir.optional(R("Obj")), "ExtOptObj"), "body")], returns=X(ir.set_(P("STRING")), "ExtSetStr")),
+        ir.endpoint("m", "POST", "/ext/m", [ir.arg("body", X(ir.map_(P("STRING"), P("DOUBLE")), "ExtMap"), "body")], returns=X(R("En"), "ExtEn")),
+    ], package=pkg)
     alias_only = ir.service("AliasOnly", [
         ir.endpoint("binBody", "POST", "/ao/bin", [ir.arg("body", R("BinAlias"), "body")], returns=R("BinAlias")),
         ir.endpoint("optBinRet", "GET", "/ao/optbin", [], returns=R("OptBinAlias")),
@@ -172,7 +184,7 @@ def services_ir(pkg="com.palantir.svc", set_double_query=True):
         ir.endpoint("listRet", "GET", "/ao/list/{p}", [ir.arg("p", R("RidAlias"), "path"), ir.arg("q", R("OptAlias"), "query", "q"),
                                                        ir.arg("s", R("SetAlias"), "query", "s"), ir.arg("h", R("OptAlias"), "header", "H")], returns=R("ListAlias")),
     ], package=pkg)
-    return ir.definition(types=types, services=[svc, empty, alias_only], errors=[
+    return ir.definition(types=types, services=[svc, empty, alias_only, ext], errors=[
         ir.error("E1", "Svc", "NOT_FOUND", [ir.field("id", P("RID")), ir.field("obj", R("Obj"))], [ir.field("d", P("DOUBLE")), ir.field("o", ir.optional(P("STRING")))], package=pkg),
         ir.error("NoArgs", "Svc", "INTERNAL", [], [], package=pkg)])
 
